@@ -545,6 +545,7 @@ def sa_snapshot(sa):
         'pending': len(sa.pending_events), 'retransmit_at': sa.retransmit_at, 'retransmissions': sa.retransmissions,
         'my_spi': sa.my_spi.hex(), 'peer_spi': sa.peer_spi.hex(),
         'has_new': sa.new_ike_sa is not None,
+        'my_addr': str(sa.my_addr), 'peer_addr': str(sa.peer_addr),
     }
 
 
